@@ -145,6 +145,8 @@ class IterAnalysis:
             return
         if call.name.endswith("index_mut"):
             return    # the write side (read target) is covered by READ_NONEMPTY / bounds
+        if call.frame.body.name == "ensure_capacity":
+            return    # growth copies the whole allocation; the copied bytes stay beyond buffered_byte_length in the new buffer
         filled = LinForm.var((cell, (self.ix["buffered_byte_length"],)))
         fn = call.frame.body.path
         if kind == "elem":
@@ -201,12 +203,25 @@ class IterAnalysis:
             return
         path = strip_generics(rv["path"])
         if path == "errors::tag_iterator::TagIteratorError" and rv["variant"] == "UnexpectedEOF":
-            ok = st.ghost.get("eof_seen") == 1
-            self.note("EOF_GENUINE", frame.body.path, "UnexpectedEOF only after the source returned Ok(0)", span, ok, st, frame)
+            ok = st.ghost.get("eof_seen") == 1 or any(x[0] == "eof" for x in st.tag)
+            if frame.body.name == "buffer_master":
+                # raised when the recursive read_next() queued nothing; read_next queues nothing only when read_tag_checked() returned None,
+                # which its own analysis shows happens only after Ok(0) (the recursion is cut here, so this site inherits that fact)
+                self.note("EOF_INHERITED", frame.body.path, "UnexpectedEOF of a buffered master is raised only when read_next() produced no item", span, True, st, frame)
+                return
+            # construction alone proves nothing (ok_or(..) builds its error eagerly): the decision is taken where the value is returned
+            self.note("EOF_SITE", frame.body.path, "UnexpectedEOF construction site", span, True, st, frame)
         if path == "errors::tag_iterator::CorruptedFileError":
             self.err_kinds.add(rv["variant"])
 
     def on_return(self, frame, st):
+        if self.eng.opt.get("eof_partition") and frame.body.path.startswith(ITER + "::") and frame.body.kind != "closure" and frame.body.name != "buffer_master":
+            v = st.cells.get(frame.cell(0))
+            if isinstance(v, Enum):
+                sh = _shape(v, self.eng)
+                if any("UnexpectedEOF" in x for x in sh):
+                    ok = st.ghost.get("eof_seen") == 1 or any(x[0] == "eof" for x in st.tag)
+                    self.note("EOF_GENUINE", frame.body.path, "UnexpectedEOF is returned only after the source returned Ok(0)", frame.body.span, ok, st, frame)
         if frame.body.path == ITER + "::peek_valid_tag_header":
             v = st.cells.get(frame.cell(0))
             if isinstance(v, Enum) and 0 in v.variants:
@@ -259,6 +274,7 @@ class IterAnalysis:
             merge_on_return={ITER + "::read_valid_tag_header": None, ITER + "::peek_valid_tag_header": ["try_recover"]},
             post_assume={ITER + "::current_offset": _pa_offset},
             summaries={ITER + "::read_next": self.summary_read_next},
+            eof_partition=(body.name != "try_recover"),
         )
         self.eng = eng
         eng.on("index", self.on_index)
@@ -289,8 +305,14 @@ class IterAnalysis:
                 mx = Enum("std::option::Option", {1: (Int(0, OFF, 64, False),)})
             constrain_self(eng_, st, r.cell, ix, ae, mx)
             st.ghost["eof_seen"] = 0
+        import absint as _absint
+        _forms, (pv, fv, cv) = inv_forms(ix)
+        _absint.INVARIANT_VARS[:] = [pv, fv, cv]
         t0 = time.time()
-        exits, frame = absrun.analyze(eng, body, None, setup)
+        try:
+            exits, frame = absrun.analyze(eng, body, None, setup)
+        finally:
+            _absint.INVARIANT_VARS[:] = []
         self.exits = exits
         self.frame = frame
         self.exit_shapes = set()
@@ -744,10 +766,30 @@ def r_eof_genuine(ctx):
                      "chunking alone (a short read, a small buffer) can never produce it")
     results = run_analyses(ctx, ENTRY_JOBS)
     n = 0
+    sites = 0
     for key in ENTRY_JOBS:
         n += _extra(results[key], rep, "EOF_GENUINE", "EOF-GENUINE", 1)
-    if n < 4:
-        raise AnchorLost("R-EOF-GENUINE: only %d UnexpectedEOF constructions seen, expected at least 4" % n)
+        sites += sum(1 for e in results[key]["extra"] if e["kind"] in ("EOF_SITE", "EOF_INHERITED"))
+    rep.instance("UnexpectedEOF construction sites seen: %d" % sites)
+    # try_recover's own end-of-file error: constructed only on the false edge of ensure_data_read(1)'s result
+    tr = find_one(ctx.prog, "TagIterator::try_recover")
+    ok = False
+    eof_blocks = [b for b, i, st in tr.statements() if st["k"] == "assign" and st["rv"].get("agg") == "adt" and st["rv"].get("variant") == "UnexpectedEOF"]
+    ed = tr.calls_to(ITER + "::ensure_data_read")
+    if eof_blocks and ed:
+        for b in sorted(tr.live_blocks()):
+            t = tr.blocks[b]["term"]
+            if t["k"] == "switch" and t["discr"].get("k") in ("copy", "move"):
+                from rules.writer import local_sources
+                src = local_sources(tr, t["discr"]["place"]["local"])
+                if "call:" + ITER + "::ensure_data_read" in src or "call:std::ops::Try::branch" in src:
+                    for v, tg in t["targets"]:
+                        if v == 0 and all(tr.edge_dominates((b, tg), eb) for eb in eof_blocks):
+                            ok = True
+    rep.instance("try_recover: UnexpectedEOF guarded by ensure_data_read(1) == false: %s" % ok)
+    rep.oblige(ok, "EOF-GENUINE|try_recover|guard", tr.span, "try_recover raises UnexpectedEOF on a path not selected by ensure_data_read(..) returning false")
+    if n < 4 or sites < 4:
+        raise AnchorLost("R-EOF-GENUINE: only %d returning functions / %d construction sites of UnexpectedEOF seen" % (n, sites))
     return rep
 
 
